@@ -145,6 +145,7 @@ func c04TZSpace() []string {
 	for _, t := range []string{"2020-07-15T23:30:00Z", "2020-07-15T23:30:00-02:30", "2020-01-01T00:15:00.500-03:30", "2020-01-01T00:15:00+13:45", "2020-07-15T10:45:00+12:45", "2020-03-08T01:30:00+05:30", "2020-12-31T23:59:59.999999-11:00"} {
 		els = append(els, el{"dateTime:" + t, lib.ProtoDateTime(t)}, el{"instant:" + t, lib.ProtoInstant(t)})
 	}
+	els = append(els, el{"time:01:02:03", lib.ProtoTime("01:02:03")}, el{"time:23:59:59.999", lib.ProtoTime("23:59:59.999")}, el{"time:00:00:00", lib.ProtoTime("00:00:00")})
 	for _, prog := range []string{"%e = %a", "%e < %a", "%a <= %e", "%e ~ %a"} {
 		e := must(prog)
 		if e == nil {
@@ -160,7 +161,7 @@ func c04TZSpace() []string {
 			}
 		}
 	}
-	for _, prog := range []string{"%e.toString()", "%e + 6 months", "%e - 25 hours", "%e.toDateTime()", "%e.toDate()", "(%e + 1 year).toString()"} {
+	for _, prog := range []string{"%e.value", "%e.toString()", "%e + 6 months", "%e - 25 hours", "%e.toDateTime()", "%e.toDate()", "(%e + 1 year).toString()"} {
 		e := must(prog)
 		if e == nil {
 			continue
